@@ -11,6 +11,46 @@ int g_nconns;
 
 static struct { Conn *c; int side; } g_fdmap[1024];
 
+/* sender-side framing of the bytes *offered* to send(): an honest record layer offers the rest of the
+ * current record (GmSSL: exactly that).  Offered bytes beyond the end of the current record that do not
+ * form well-formed record headers mean the library is reading past its record buffer. */
+typedef struct { int hdr_got; size_t body_left; uint8_t hdr[5]; } TxFrame;
+static TxFrame g_tx[NET_MAX_CONN][2];
+char g_net_violation[160];
+
+static int plausible_hdr(const uint8_t *h)
+{
+	size_t len = ((size_t)h[3] << 8) | h[4];
+	return h[0] >= 20 && h[0] <= 24 && (h[1] == 1 || h[1] == 3) && h[2] <= 4 && len <= 18432 + 256;
+}
+
+static void tx_check(Conn *c, int dir, const uint8_t *buf, size_t len, size_t accepted)
+{
+	TxFrame *tx = &g_tx[c->id][dir];
+	/* look at everything that was offered, but advance the state only by what was accepted */
+	TxFrame t = *tx;
+	size_t i = 0;
+	int past_first = 0;
+	while (i < len) {
+		if (t.body_left) { size_t m = len - i < t.body_left ? len - i : t.body_left; t.body_left -= m; i += m; if (!t.body_left) past_first = 1; continue; }
+		t.hdr[t.hdr_got++] = buf[i++];
+		if (t.hdr_got == 5) {
+			if (past_first && !plausible_hdr(t.hdr) && !g_net_violation[0])
+				snprintf(g_net_violation, sizeof(g_net_violation), "send() was offered %zu bytes, %zu of them beyond the end of the current record and not a record (%02x %02x %02x %02x %02x)",
+					len, len - i + 5, t.hdr[0], t.hdr[1], t.hdr[2], t.hdr[3], t.hdr[4]);
+			t.body_left = ((size_t)t.hdr[3] << 8) | t.hdr[4];
+			t.hdr_got = 0;
+			if (!t.body_left) past_first = 1;
+		}
+	}
+	/* advance */
+	for (i = 0; i < accepted; ) {
+		if (tx->body_left) { size_t m = accepted - i < tx->body_left ? accepted - i : tx->body_left; tx->body_left -= m; i += m; continue; }
+		tx->hdr[tx->hdr_got++] = buf[i++];
+		if (tx->hdr_got == 5) { tx->body_left = ((size_t)tx->hdr[3] << 8) | tx->hdr[4]; tx->hdr_got = 0; }
+	}
+}
+
 /* per-pipe receive framing state (mirrors tls_record_recv's read pattern) */
 typedef struct { int hdr_got; size_t body_left; uint8_t hdr[5]; } RxFrame;
 static RxFrame g_rx[NET_MAX_CONN][2];
@@ -33,6 +73,8 @@ void net_reset(void)
 		}
 	}
 	memset(g_rx, 0, sizeof(g_rx));
+	memset(g_tx, 0, sizeof(g_tx));
+	g_net_violation[0] = 0;
 	g_nconns = 0;
 }
 
@@ -268,6 +310,7 @@ ssize_t net_send(int fd, const void *buf, size_t len)
 		p->n_short_wr++;
 		g_sim.probes[PR_SHORT_WRITE]++;
 	}
+	if (c->check_tx) tx_check(c, dir, buf, len, n);
 	ensure(&p->sent, &p->sent_alloc, p->sent_len + n);
 	sim_copy(p->sent + p->sent_len, buf, n);
 	p->sent_len += n;
